@@ -12,8 +12,8 @@ META = {
     "property_id": "C41",
     "level": "model_checking",
     "technique": "TLA+ spec Privileges.tla (PersistReload is the identity on the access-control state; property ReloadIdentity model-checked by TLC); TLC-generated account/grant/role histories replayed on the real engine, persisted with MySQLDb.Persist and loaded with LoadData into a fresh engine inside and after every history; SHOW GRANTS sets, stored privilege state and probe matrices before/after validated by TLC against Trace_Privileges.tla",
-    "text": "TLC generates histories of CREATE/DROP USER/ROLE, GRANT/REVOKE (privilege sets and ALL at global/database/table level, WITH GRANT OPTION), GRANT/REVOKE role (WITH ADMIN OPTION) and Persist/Reload steps. The replayer executes them as root; a Persist/Reload step serialises the privilege database through the persister interface and continues the history on a fresh engine loaded from those bytes (the stored state read back must be the specification state, which the step leaves unchanged). After every history the same is done once more and SHOW GRANTS FOR every account (as sets of lines), the stored privilege sets / role edges / locked flags / password hashes, and the allow/deny outcome of every probe statement for every user are compared before vs. after, and the after-matrix is judged against Allowed on the unchanged specification state.",
-    "note": "Compared: what the property names (SHOW GRANTS output, allow/deny decisions) plus the stored state of the model's accounts. Not compared: dynamic/column/routine privileges, replica source info, password_last_changed, attributes. The super user root is persisted and reloaded as the engine does it. Trusted: TLC, the reading of mysql_db's tables in harness/cmd/priv.",
+    "text": "TLC generates histories of CREATE/DROP USER/ROLE, GRANT/REVOKE (privilege sets and ALL at global/database/table level, WITH GRANT OPTION), GRANT/REVOKE role (WITH ADMIN OPTION) and Persist/Reload steps. The replayer executes them as a super user; a Persist/Reload step serialises the privilege database through the persister interface and continues the history on a fresh engine loaded from those bytes (the stored state read back must be the specification state, which the step leaves unchanged). After every history the same is done once more and SHOW GRANTS FOR every account (as sets of lines), the stored privilege sets / role edges / locked flags / password hashes, and the allow/deny outcome of every probe statement for every user are compared before vs. after, and the after-matrix is judged against Allowed on the unchanged specification state.",
+    "note": "Compared: what the property names (SHOW GRANTS output, allow/deny decisions) plus the stored state of the model's accounts. Not compared: dynamic/column/routine privileges, replica source info, password_last_changed, attributes. The replayer's own administrator is an ephemeral super user (never persisted); the persisted super user root@localhost is part of the SHOW GRANTS comparison. Trusted: TLC, the reading of mysql_db's tables in harness/cmd/priv.",
     "design_ref": "§7 C41, §3.3",
 }
 
